@@ -9,7 +9,8 @@ from ..runner import Result
 
 ID = 'C11'
 RULE = ('Generated: rule-conforming antennas over real ground: 1..3 media (eps 1..80, sigma 1e-4..1e3, heights <= 0, '
-        'linear or circular boundaries at drawn positions, optional radial screen), 1..2 sources.  Oracle: (a) '
+        'linear or circular boundaries at drawn positions, optional radial screen), 1..2 sources, 0..2 loads (lumped complex / series RLC on any pulse incl. ground pulses, '
+        'skin effect).  Oracle: (a) '
         'currents identical (1e-12) to the same antenna over ideal ground; (b) with all conductivities replaced by '
         '1e2, 1e4, .., 1e12 (media heights 0) the largest gain difference to ideal ground at elevations >= 2.5 deg '
         'does not grow, is <= 0.02 dB at 1e12 and falls by >= 50 per four decades at the end; (c) splitting a drawn medium into two adjacent pieces with '
@@ -22,7 +23,7 @@ RULE = ('Generated: rule-conforming antennas over real ground: 1..3 media (eps 1
 BUDGET = {'quick': {'examples': 700, 'wall': 220}, 'thorough': {'examples': 20000, 'wall': 1500}}
 ASSUMPTIONS = ['theta = 90 deg exactly is avoided (the program places that reflection point at 1e5 m by definition)',
                'gains compared where they exceed -100 dB']
-LABEL_FLOORS = {'media>=2': 0.4, 'radials': 0.08, 'boundary-crossed': 0.2, 'circular': 0.2}
+LABEL_FLOORS = {'media>=2': 0.4, 'radials': 0.08, 'boundary-crossed': 0.2, 'circular': 0.2, 'loaded': 0.3, 'load-on-gnd': 0.05}
 
 TH = (2.5, 5.0, 18)       # 2.5 .. 87.5
 PH = (0.0, 30.0, 12)
@@ -32,6 +33,22 @@ PH = (0.0, 30.0, 12)
 def case_strategy(draw, big=False):
     case = draw(gen.antenna(env_kinds=('real',), max_wires=3, max_seg=6 if not big else 10, nsrc=(1, 2), taper_prob=0.05))
     lam = gen.C_MHZ_M / case['f']
+    # loads (the solve must not depend on the ground constants whatever is attached, a load on a ground pulse included)
+    topo, objs = gen.stand_in_topology(case)
+    lds = []
+    for i in range(draw(st.sampled_from([0, 0, 1, 1, 2]))):
+        kind = draw(st.sampled_from(['lumped', 'lumped', 'lumped', 'skin']))
+        if kind == 'lumped':
+            l = draw(gen.lumped_load(kinds=('z', 'rlc')))
+            gp = [p.idx for p in topo.pulses if p.kind == 'gnd']
+            if gp and draw(st.booleans()):
+                l['attach'] = [draw(st.sampled_from(gp))]
+            else:
+                l['attach'] = [draw(st.integers(0, len(topo.pulses) - 1))]
+            lds.append(l)
+        elif not any(x['kind'] == 'skin_c' for x in lds):
+            lds.append({'kind': 'skin_c', 'v': gen.r6(draw(gen.logf(1e4, 1e8))), 'tag': None})
+    case['loads'] = lds
     # boundary coordinates in units of the antenna: reflection points lie within a few heights
     env = case['env']
     c = 0.0
@@ -116,6 +133,10 @@ def check(case):
         nt = True
     if circular:
         labels.append('circular')
+    if case.get('loads'):
+        labels.append('loaded')
+        if any(topo.pulses[a].kind == 'gnd' for l in case['loads'] for a in l.get('attach', []) if isinstance(a, int)):
+            labels.append('load-on-gnd')
     fails = []
     # (a) currents
     Ia, Ib = np.array(m.current), np.array(mi.current)
@@ -253,6 +274,14 @@ def check(case):
             md['coord'] = md['coord'] * s_
     if c7['env'].get('radials'):
         c7['env']['radials'] = dict(c7['env']['radials'], r=c7['env']['radials']['r'] * s_)
+    for l in c7.get('loads') or []:
+        # loads keep their impedance: inductances and capacitances scale with the lengths, wire conductivity like sigma
+        if l['kind'] == 'rlc':
+            for kx in ('L', 'C'):
+                if l.get(kx) is not None:
+                    l[kx] = l[kx] * s_
+        elif l['kind'] == 'skin_c':
+            l['v'] = l['v'] / s_
     try:
         d = maxdiff(g0, pattern(common.solved(c7)), top=40)
         if d > 0.01:
